@@ -291,11 +291,11 @@ def encUPER : PTy → Val → Option Bits
   | .octstr sz, .octets os => encSized sz (octetItems os)              -- §17
   | .kmstr cw alpha base sz, .octets os => encKmString cw alpha base sz os   -- §30.1–30.5
   | .unkstr, .octets os => some (encOctetsUnc os)                      -- §30.6, §24, §25
-  | .seq root rattrs extensible adds, .seq vs =>                       -- §19
+  | .seq root rattrs extensible adds aattrs, .seq vs =>                -- §19
     match encRoot root rattrs vs with
     | none => none
     | some (preamble, body, rest) =>
-      match encAdds adds rest with
+      match encAdds adds aattrs rest with
       | none => none
       | some (bitmap, abody) =>
         if extensible then
@@ -349,20 +349,26 @@ def encRoot : List PTy → List Attr → List Val → Option (Bits × Bits × Li
         | some x, some (p, b, r) => some (if a.optional then true :: p else p, x ++ b, r)
         | _, _ => none
   | _, _, _ => none
-/-- extension additions: (presence bitmap, concatenated open types) -/
-def encAdds : List PTy → List Val → Option (List Bool × Bits)
-  | [], [] => some ([], [])
-  | m :: ms, v :: vs =>
+/-- extension additions: (presence bitmap, concatenated open types).
+    CANONICAL-PER (§19.5): an addition equal to its DEFAULT value is encoded as absent, like a root component. -/
+def encAdds : List PTy → List Attr → List Val → Option (List Bool × Bits)
+  | [], _, [] => some ([], [])
+  | m :: ms, a :: as, v :: vs =>
     match v with
     | .absent =>
-      match encAdds ms vs with
+      match encAdds ms as vs with
       | some (bm, b) => some (false :: bm, b)
       | none => none
     | v =>
-      match encUPER m v, encAdds ms vs with
-      | some x, some (bm, b) => some (true :: bm, openType x ++ b)
-      | _, _ => none
-  | _, _ => none
+      if isDefault a v then
+        match encAdds ms as vs with
+        | some (bm, b) => some (false :: bm, b)
+        | none => none
+      else
+        match encUPER m v, encAdds ms as vs with
+        | some x, some (bm, b) => some (true :: bm, openType x ++ b)
+        | _, _ => none
+  | _, _, _ => none
 def encAlt : List PTy → Nat → Val → Option Bits
   | [], _, _ => none
   | a :: _, 0, v => encUPER a v
@@ -427,7 +433,7 @@ def decUPER : PTy → Bits → Option (Val × Bits)
     match decOctetsUnc bs with
     | some (os, r) => some (.octets os, r)
     | none => none
-  | .seq root rattrs extensible adds, bs =>
+  | .seq root rattrs extensible adds _, bs =>
     match (if extensible then rdBit bs else some (false, bs)) with
     | none => none
     | some (eb, bs1) =>
